@@ -467,6 +467,18 @@ class C15Clauses(IdentityTable):
                         blob["codec"], "/restarted" if I.restarted else ""), {"missing": str(e)})
                     return {"C15.load": "VIOLATED"}
                 return r
+            if kind == "dim" and mval is not None:
+                epoch = "/after-dimension-define" if len(I.model.fundamental) > blob.get("n_fundamental", 10 ** 6) else ""
+                got = M.d_norm(value.exponents)
+                canonical = L.Dimension._known.get(tuple(mval) + (0,) * (len(I.model.fundamental) + 1 - len(mval)))
+                if got != tuple(mval) or (canonical is not None and value is not canonical):
+                    I.violation("C15.load", "C15/%s/dim/load-identity%s%s" % (
+                        blob["codec"], epoch, "/restarted" if I.restarted else ""),
+                        {"want": list(mval), "got": list(got), "canonical_exists": canonical is not None})
+                    if "id" in op:
+                        I.vals[op["id"]] = (None, ABSENT)   # a duplicate must not seed further checks
+                    return {"C15.load": "VIOLATED"}
+                return {"C15.load": "ok"}
             if kind == "qty":
                 want_t, want_r = blob["m"]
                 got_t, got_r = type(value.magnitude).__name__, repr(value.magnitude)
